@@ -409,6 +409,46 @@ fn kept_across_reset() -> Vec<(String, BTreeMap<String, String>)> {
     out
 }
 
+/// What an embedding makes through the public interface stays alive as long as it is reachable: a native
+/// function defined in, or an object (string, vec, tuple, range, map, error instance, StopIter instance) made
+/// with the public constructors and stored as a global of, a module that does not exist yet, of `main`, or of
+/// a module that existed before a reset - then garbage, a second definition in the same module, a program
+/// run in that module that copies and (for natives) calls the value, more garbage, and the host reading
+/// everything back.  (source pieces joined by SNIPPET_SEPARATOR, module table)
+fn made_by_the_embedding() -> Vec<(String, BTreeMap<String, String>)> {
+    let h = "\u{0}host:";
+    let garbage = "var zz_junk = [];\nfor i in 0..30 { zz_junk.push([i, \"s${i}\", (i, i), {i: i}]); }\nzz_junk = nil;\n";
+    let kinds = ["native", "string", "vec", "tuple", "range", "hash_map", "error", "stop_iter"];
+    let mut out = Vec::new();
+    for kind in kinds {
+        for other in ["native", "vec"] {
+            for (module, reset_first) in [("plug", false), ("main", false), ("plug", true), ("main", true)] {
+                let make = |name: &str, k: &str| -> String {
+                    if k == "native" { format!("{}define_native_in:{}:{}", h, module, name) } else { format!("{}set_global_in:{}:{}:{}", h, module, name, k) }
+                };
+                let mut pieces: Vec<String> = Vec::new();
+                if reset_first {
+                    // the module exists, is used, and is forgotten by a reset before the host defines into it
+                    pieces.push(format!("{}run_in:{}:var early = [1, 2, 3];", h, module));
+                    pieces.push("\u{0}reset".into());
+                }
+                pieces.push(make("thing", kind));
+                pieces.push(garbage.to_string());
+                pieces.push(make("other", other));
+                pieces.push(garbage.to_string());
+                let use_ = if kind == "native" { "var copy = thing;\nvar r = thing();\nvar both = [thing, other];" } else { "var copy = thing;\nvar both = [thing, other, [thing]];" };
+                pieces.push(format!("{}run_in:{}:{}", h, module, use_));
+                pieces.push(garbage.to_string());
+                for name in ["thing", "other", "copy", "both", "r"] {
+                    pieces.push(format!("{}show_global:{}:{}", h, module, name));
+                }
+                out.push((pieces.join(SNIPPET_SEPARATOR), BTreeMap::new()));
+            }
+        }
+    }
+    out
+}
+
 
 /// Answers that depend on *which object* something is - `derives`, `type(x) == C`, `==` on instances, classes
 /// and closures, a class used as a map key - asked about short-lived objects in a loop: every round makes a
@@ -579,6 +619,7 @@ pub fn run(ctx: &Ctx) -> Report {
     }
     corpus.extend(open_upvalue_lists().into_iter().map(|s| (s, BTreeMap::new())));
     corpus.extend(kept_across_reset());
+    let n_embed = { let v = made_by_the_embedding(); let n = v.len(); corpus.extend(v); n };
     let n_corpus = corpus.len();
     let corpus_accs = par_map(&ctx.runner_checked, ctx.workers, corpus.into_iter(), |runner, _i, (src, modules)| {
         runner.timeout = std::time::Duration::from_secs(60);
@@ -686,6 +727,7 @@ pub fn run(ctx: &Ctx) -> Report {
     report.cov("bounds", json!({"chain_length": 2, "outer_holders_of_chains_of_two": if thorough { "all 29" } else { "7 representatives" }, "only_i_for_program_allocations_up_to": 80, "pairs_for_program_allocations_up_to": if thorough { 40 } else { 0 }}));
     report.cov("heap_shape_programs", json!(n_shapes));
     report.cov("corpus_programs", json!(n_corpus));
+    report.cov("histories_of_values_made_by_the_embedding", json!(n_embed));
     report.cov("programs_run_on_the_optimised_runner_with_paced_collections", json!(n_paced));
     report.cov("schedules_run", json!(acc.schedules));
     report.cov("allocation_points_covered", json!(acc.alloc_points));
